@@ -35,8 +35,9 @@ NOT_COVERED = [
     "DSDLDefinition.read and _namespace_reader._read_definitions (path attachment): only "
     "Error.set_error_location_if_unknown, which both call, is proved; the whole_text extra check observes a path on every "
     "rejected definition (bounded)",
-    "Set._attribute (min / max / count) and _operator.attribute, CompositeType._attribute, SerializableType._attribute "
-    "(functools.reduce over a set is not modelled); exercised natively by whole_text only",
+    "_operator.attribute, CompositeType._attribute, SerializableType._attribute (exercised natively by whole_text only); "
+    "Set._attribute is under contract (exception classes, count, min/max select a member) but the *order* of min / max is "
+    "not specified (functools.reduce is modelled as a selection fold)",
     "sets of sets and sets of types: every contract involving a Set operand assumes (precondition `domain`) that its "
     "element class is Boolean, Rational or String",
     "string literals whose body contains the delimiting quote character after a backslash (precondition "
